@@ -24,7 +24,8 @@ from unittest import mock
 from harness import common
 
 PROPERTY = 'C18'
-ROLES = ['p', 'q', 'x', 'n', 'o', 'a', 'b', 'c', 'c_old', 'u', 'v', 'w']
+ROLES = ['p', 'q', 'x', 'n', 'o', 'a', 'b', 'c', 'c_old', 'u', 'v', 'w',
+         '\u00e9\U0001f600']
 
 
 def _defaults(kind):
@@ -63,10 +64,12 @@ def _forms(name, default_cs, new_names=()):
         ('list', [['role:u'], ['role:v', 'role:w']]),
         ('quoted', "'lit':%(k)s or role:u"),
         ('dquoted', '"lit":%(k)s or role:u'),
+        ('unicode', 'role:u or role:\u00e9\U0001f600'),
         ('empty', ''),
     ]
     for nn in new_names:
         forms.append(('alias:' + nn, 'rule:%s' % nn))
+        forms.append(('alias:(%s)' % nn, '( rule:%s )' % nn))
     return forms
 
 
@@ -89,12 +92,13 @@ def _file_for(ctx, kind, tool, small=False):
         pick('p', 'role:p', allow=['absent', 'default', 'variant',
                                    'different', 'list'])
         pick('q', 'role:q or role:x', allow=['absent', 'variant', 'dquoted'])
-        pick('u', None, allow=['absent', 'list', 'dquoted'])
+        pick('u', None, allow=['absent', 'list', 'dquoted', 'unicode'])
     else:
         pick('p', 'role:p')
         pick('q', 'role:q or role:x', allow=['absent', 'default', 'variant',
                                              'list', 'dquoted'])
-        pick('u', None, allow=['absent', 'different', 'list', 'dquoted'])
+        pick('u', None, allow=['absent', 'different', 'list', 'dquoted',
+                               'unicode'])
     if kind in ('renamed', 'all'):
         pick('old', 'role:o', ['n'], allow=['absent', 'default', 'different',
                                             'alias', 'list'])
